@@ -144,4 +144,3 @@ package eval
 //@ func ti/eval.skipMultilineComment
 //@   requires wfP(p)
 //@   eosexit
-
